@@ -210,7 +210,9 @@ func (st *SlimTrie) getGEPath(key string) ([]int32, bool) {
 		return []int32{}, false
 	}
 
-	if st.inner.InnerPrefixes == nil || st.inner.LeafPrefixes == nil {
+	// InnerPrefixes is never nil on a built trie: without the InnerPrefix option it
+	// only stores step lengths (PositionBM == nil), which is not enough to rebuild keys.
+	if st.inner.InnerPrefixes == nil || st.inner.InnerPrefixes.PositionBM == nil || st.inner.LeafPrefixes == nil {
 		panic("incomplete slim does not support scanning. requires InnerPrefixes and LeafPrefixes")
 	}
 
